@@ -117,6 +117,14 @@ impl Stack {
         self.values.pop()
     }
 
+    pub fn len(&self) -> usize {
+        self.values.len()
+    }
+
+    pub fn truncate(&mut self, len: usize) {
+        self.values.truncate(len);
+    }
+
     #[track_caller]
     pub fn peek(&self) -> &Value {
         self.values.last().unwrap()
